@@ -177,4 +177,42 @@ TableLoop(c, acc, tab, other) ==
        ELSE TableLoop(c, acc, Tail(tab), other \div 2)
 (* __mul__ of a generator-flagged point with a declared order: k reduced modulo 2 * order first *)
 JMulTable(c, t, k, order) == TableLoop(c, JInfTriple, Table(c, t, order), k % (2 * order))
+
+(* ---- interleaved double-scalar multiplication (mul_add) ------------------------------------------------------ *)
+(* digits most significant first, the shorter NAF left-padded with zeros *)
+PadLeft(s, k) == [j \in 1..k |-> IF j <= k - Len(s) THEN 0 ELSE s[j - (k - Len(s))]]
+RECURSIVE MulAddLoop(_, _, _, _, _, _, _)
+MulAddLoop(c, acc, P1, P2, comb, da, db) ==        \* comb = <<-A-B, A-B, -A+B, A+B>>
+  IF da = <<>> THEN acc
+  ELSE LET d == JDbl(c, acc[1], acc[2], acc[3])
+           A == da[1]
+           B == db[1]
+           nxt == IF A = 0 THEN (IF B = 0 THEN d
+                                 ELSE IF B < 0 THEN JAdd(c, d, <<P2[1], 0 - P2[2], P2[3]>>)
+                                 ELSE JAdd(c, d, P2))
+                  ELSE IF A < 0 THEN (IF B = 0 THEN JAdd(c, d, <<P1[1], 0 - P1[2], P1[3]>>)
+                                      ELSE IF B < 0 THEN JAdd(c, d, comb[1]) ELSE JAdd(c, d, comb[3]))
+                  ELSE (IF B = 0 THEN JAdd(c, d, P1)
+                        ELSE IF B < 0 THEN JAdd(c, d, comb[2]) ELSE JAdd(c, d, comb[4]))
+       IN  MulAddLoop(c, nxt, P1, P2, comb, Tail(da), Tail(db))
+
+(* self.mul_add(a, other, b) for two table-less points; order = 0 means "no declared order".  The early exits     *)
+(* (other is the identity or b = 0; a = 0) and the fall-back when A + B is the identity use the NAF multiplication. *)
+JMulAdd(c, t1, a, t2, b, order) ==
+  IF JIsInf(c, t2) \/ b = 0 THEN JMulNaf(c, t1, IF order > 0 THEN a % (2 * order) ELSE a)
+  ELSE IF a = 0 THEN JMulNaf(c, t2, IF order > 0 THEN b % (2 * order) ELSE b)
+  ELSE LET aa == IF order > 0 THEN a % order ELSE a
+           bb == IF order > 0 THEN b % order ELSE b
+           P1 == JScale(c, t1)
+           P2 == JScale(c, t2)
+           n1 == <<P1[1], 0 - P1[2], P1[3]>>
+           n2 == <<P2[1], 0 - P2[2], P2[3]>>
+           comb == <<JAdd(c, n1, n2), JAdd(c, P1, n2), JAdd(c, n1, P2), JAdd(c, P1, P2)>>
+       IN  IF JIsInf(c, comb[4])
+           THEN JAdd(c, JMulNaf(c, t1, IF order > 0 THEN aa % (2 * order) ELSE aa),
+                        JMulNaf(c, t2, IF order > 0 THEN bb % (2 * order) ELSE bb))
+           ELSE LET na == Reverse(Naf(aa))
+                    nb == Reverse(Naf(bb))
+                    k == IF Len(na) > Len(nb) THEN Len(na) ELSE Len(nb)
+                IN  MulAddLoop(c, JInfTriple, P1, P2, comb, PadLeft(na, k), PadLeft(nb, k))
 =============================================================================
